@@ -225,7 +225,8 @@ def p3_compact(out, hook_clauses, ops_clauses, known_clause=None):
         viol = []
         for c, cl in sorted(by_case.items()):
             rel = cl & ops_clauses
-            if known_clause and known_clause[0] in rel and known_clause[1] not in cl and "not_kf1" not in cl:
+            if known_clause and known_clause[0] in rel and known_clause[1] not in cl and "not_kf1" not in cl \
+                and "raw_inexact" not in cl:
                 known.append(c)
                 rel = rel - {known_clause[0]}
             if rel:
@@ -509,7 +510,8 @@ def ops_check(out, clauses, nontrivial, what, known_clause=None, extra=()):
     viol, known = [], []
     for c, cl in sorted(by_case.items()):
         rel = cl & clauses
-        if known_clause and known_clause[0] in rel and known_clause[1] not in cl and "not_kf1" not in cl:
+        if known_clause and known_clause[0] in rel and known_clause[1] not in cl and "not_kf1" not in cl \
+                and "raw_inexact" not in cl:
             # rejected as shipped, accepted with the swap-repair switch on
             known.append(c)
             rel = rel - {known_clause[0]}
@@ -1176,7 +1178,8 @@ def replay(pid, path):
     real = []
     for spec, c, cl, ln, line in rej:
         cl = set(cl)
-        if known_pair and known_pair[0] in cl and known_pair[1] not in cl and "not_kf2" not in cl and "not_kf1" not in cl:
+        if known_pair and known_pair[0] in cl and known_pair[1] not in cl and "not_kf2" not in cl and "not_kf1" not in cl \
+                and "raw_inexact" not in cl:
             print(f"KNOWN-FINDING: property={pid} line {ln}: rejected as shipped ({known_pair[0]}), accepted with the swap repair on "
                   f"(call-site attribution to {'KF-1' if pid == 'C11' else 'KF-2'})")
             cl = cl - {known_pair[0]}
